@@ -8,6 +8,7 @@ mod img_streams;
 mod geom;
 mod sectorops;
 mod cross;
+mod langrun;
 mod malform;
 mod packrun;
 mod codec;
@@ -46,6 +47,7 @@ fn dispatch(toks: &[&str]) -> String {
         "deseq" | "dosbin" | "dostok" | "pack" | "txtb" => packrun::dispatch(toks),
         "malform" => malform::run(toks),
         "wozchunk" | "imdparse" | "dosunbin" | "dasmsweep" => malform::pieces(toks),
+        "tokrt" | "escas" | "escint" | "unesc" | "menc" | "mdec" => langrun::dispatch(toks),
         "cells" => cross::cells(toks),
         "cross" => cross::cross(toks),
         "fsh" => fsrun::run(toks),
